@@ -9,6 +9,7 @@ import (
 
 	"github.com/cosmos/cosmos-proto/internal/verifh/vschema"
 	"google.golang.org/protobuf/proto"
+	"google.golang.org/protobuf/reflect/protoreflect"
 )
 
 // Bridge converts between Val trees and the generated Go structs using only Go reflection over the
@@ -328,4 +329,116 @@ func ZeroSlot(f *vschema.Field) *Val {
 		return VMap(false, nil)
 	}
 	return VNone()
+}
+
+// AddStaleCapacity gives every repeated field of the root struct (and of its direct message-typed children) spare
+// capacity whose slots hold STALE data just past len — what the reuse idiom `x.F = x.F[:0]` (or any reslice) leaves
+// behind. Slots beyond len are not part of the value: nothing a decoder, codec or accessor does may depend on them.
+func AddStaleCapacity(m proto.Message, depth int) {
+	rv := reflect.ValueOf(m)
+	if rv.Kind() != reflect.Ptr || rv.IsNil() {
+		return
+	}
+	sv := rv.Elem()
+	if sv.Kind() != reflect.Struct {
+		return
+	}
+	for i := 0; i < sv.NumField(); i++ {
+		fv := sv.Field(i)
+		if !fv.CanSet() || sv.Type().Field(i).Tag.Get("protobuf") == "" {
+			continue
+		}
+		switch fv.Kind() {
+		case reflect.Slice:
+			et := fv.Type().Elem()
+			if et.Kind() == reflect.Uint8 { // []byte: a bytes field, spare capacity with junk as well
+				nb := reflect.MakeSlice(fv.Type(), fv.Len(), fv.Len()+3)
+				reflect.Copy(nb, fv)
+				ext := nb.Slice(0, fv.Len()+3)
+				for k := fv.Len(); k < fv.Len()+3; k++ {
+					ext.Index(k).SetUint(0xEE)
+				}
+				if fv.IsNil() {
+					continue // keep nil-ness of an unset bytes field
+				}
+				fv.Set(nb)
+				continue
+			}
+			if fv.IsNil() {
+				continue // a nil list stays nil (nil-versus-empty is part of the representation the harness tracks)
+			}
+			ns := reflect.MakeSlice(fv.Type(), fv.Len(), fv.Len()+2)
+			reflect.Copy(ns, fv)
+			ext := ns.Slice(0, fv.Len()+2)
+			for k := fv.Len(); k < fv.Len()+2; k++ {
+				slot := ext.Index(k)
+				switch et.Kind() {
+				case reflect.Ptr:
+					if pm, ok := reflect.New(et.Elem()).Interface().(proto.Message); ok {
+						// a stale element with content: unknown fields survive every merge
+						pr := pm.ProtoReflect()
+						pr.SetUnknown([]byte{0x98, 0x3f, 0x2a})
+						fs := pr.Descriptor().Fields()
+						for q := 0; q < fs.Len(); q++ {
+							fd := fs.Get(q)
+							if fd.IsList() || fd.IsMap() || fd.ContainingOneof() != nil {
+								continue
+							}
+							done := true
+							switch fd.Kind() {
+							case protoreflect.StringKind:
+								pr.Set(fd, protoreflect.ValueOfString("stale"))
+							case protoreflect.BytesKind:
+								pr.Set(fd, protoreflect.ValueOfBytes([]byte("stale")))
+							case protoreflect.BoolKind:
+								pr.Set(fd, protoreflect.ValueOfBool(true))
+							case protoreflect.Int32Kind, protoreflect.Sint32Kind, protoreflect.Sfixed32Kind:
+								pr.Set(fd, protoreflect.ValueOfInt32(7))
+							case protoreflect.Int64Kind, protoreflect.Sint64Kind, protoreflect.Sfixed64Kind:
+								pr.Set(fd, protoreflect.ValueOfInt64(7))
+							case protoreflect.Uint32Kind, protoreflect.Fixed32Kind:
+								pr.Set(fd, protoreflect.ValueOfUint32(7))
+							case protoreflect.Uint64Kind, protoreflect.Fixed64Kind:
+								pr.Set(fd, protoreflect.ValueOfUint64(7))
+							default:
+								done = false
+							}
+							if done {
+								break
+							}
+						}
+						slot.Set(reflect.ValueOf(pm))
+					}
+				case reflect.String:
+					slot.SetString("stale")
+				case reflect.Slice:
+					if et.Elem().Kind() == reflect.Uint8 {
+						slot.SetBytes([]byte("stale"))
+					}
+				case reflect.Bool:
+					slot.SetBool(true)
+				case reflect.Int32, reflect.Int64:
+					slot.SetInt(-7)
+				case reflect.Uint32, reflect.Uint64:
+					slot.SetUint(7)
+				case reflect.Float32, reflect.Float64:
+					slot.SetFloat(7.5)
+				}
+			}
+			fv.Set(ns)
+			if depth > 0 && et.Kind() == reflect.Ptr {
+				for k := 0; k < fv.Len(); k++ {
+					if pm, ok := fv.Index(k).Interface().(proto.Message); ok && !fv.Index(k).IsNil() {
+						AddStaleCapacity(pm, depth-1)
+					}
+				}
+			}
+		case reflect.Ptr:
+			if depth > 0 && !fv.IsNil() {
+				if pm, ok := fv.Interface().(proto.Message); ok {
+					AddStaleCapacity(pm, depth-1)
+				}
+			}
+		}
+	}
 }
